@@ -149,7 +149,7 @@ def grep_gate(files):
     return bad
 
 
-def build(pid, log=print):
+def build(pid, ties=(), log=print):
     """steps 1-2 of the flow, under the build lock"""
     br = BuildResult()
     os.makedirs(os.path.join(ROOT, "evidence"), exist_ok=True)
@@ -159,6 +159,14 @@ def build(pid, log=print):
         rc, out = run([sys.executable, os.path.join(ROOT, "harness", "gen_tables.py")], env=env)
         br.tables = "FAILED" if rc != 0 else ("CHANGED" if "GEN_TABLES_CHANGED" in out else "UNCHANGED")
         br.tables_log = out.strip()
+        # the source translator: re-reads the translated functions from the tree under test (coq/Gen/Src.v)
+        rc, out = run([sys.executable, os.path.join(ROOT, "harness", "gen_src.py"), REPO], env=env)
+        br.src_ok = (rc == 0 and "GEN_SRC_OK" in out)
+        br.src_log = out.strip()
+        br.src_untranslated = [l.split(" ", 1)[1] for l in out.splitlines() if l.startswith("UNTRANSLATED ")]
+        untranslated_names = [u.split(":")[0] for u in br.src_untranslated]
+        m = re.search(r"GEN_SRC_OK translated=(\d+) untranslated=(\d+)", out)
+        br.src_counts = (int(m.group(1)), int(m.group(2))) if m else (0, 0)
         if not os.path.exists(os.path.join(COQ, "Makefile")) or \
                 os.path.getmtime(os.path.join(COQ, "Makefile")) < os.path.getmtime(os.path.join(COQ, "_CoqProject")):
             run("coq_makefile -f _CoqProject -o Makefile", cwd=COQ)
@@ -170,6 +178,23 @@ def build(pid, log=print):
         br.failed_files = sorted(set(re.findall(r'File "\./([^"]+)", line', out)))
         prop = "Properties/%s.v" % pid
         br.cone = cone_of(prop) if os.path.exists(os.path.join(COQ, prop)) else []
+        # source-tie files of this property (Properties/Tie_<f>.v): part of the cone unless the translator could not
+        # read <f> (or a function its proof builds on) from the current source -- then that tie is unavailable on this
+        # run, the function is tied by the correspondence only, and the check explores more instead
+        br.ties = {}
+        tie_files = []
+        for t in ties:
+            tf = "Properties/Tie_%s.v" % t
+            if not os.path.exists(os.path.join(COQ, tf)):
+                br.ties[t] = "missing"
+                continue
+            c = cone_of(tf)
+            lost = [u for u in untranslated_names if ("Proofs/Tie_%s.v" % u[len("src_"):]) in c]
+            if lost:
+                br.ties[t] = "unavailable (translator could not read %s)" % ", ".join(lost)
+                continue
+            tie_files.append(tf)
+            br.cone = br.cone + [f for f in c if f not in br.cone]
         gate = grep_gate(br.cone)
         br.gate = gate
         names = []
@@ -192,12 +217,25 @@ def build(pid, log=print):
                 os.path.getmtime(pvo) >= os.path.getmtime(os.path.join(COQ, prop)):
             ptxt = strip_comments(open(os.path.join(COQ, prop)).read())
             ths = [m.group(2) for m in STMT.finditer(ptxt) if m.group(1) == "Theorem"]
-            br.theorems_in_file = ths
+            br.theorems_in_file = list(ths)
             af = os.path.join(COQ, "Properties", "Assum_%s.v" % pid)
             with open(af, "w") as f:
                 f.write("From BU Require Properties.%s.\n" % pid)
                 for th in ths:
                     f.write("Check BU.Properties.%s.%s.\nPrint Assumptions BU.Properties.%s.%s.\n" % (pid, th, pid, th))
+                for tf in tie_files:
+                    tmod = tf[len("Properties/"):-2]
+                    tvo = os.path.join(COQ, tf[:-2] + ".vo")
+                    tname = tmod[len("Tie_"):]
+                    if tf in br.failed_files or not os.path.exists(tvo) or os.path.getmtime(tvo) < os.path.getmtime(os.path.join(COQ, tf)):
+                        br.ties[tname] = "BROKEN"
+                        continue
+                    tths = [m.group(2) for m in STMT.finditer(strip_comments(open(os.path.join(COQ, tf)).read())) if m.group(1) == "Theorem"]
+                    f.write("From BU Require Properties.%s.\n" % tmod)
+                    for th in tths:
+                        f.write("Check BU.Properties.%s.%s.\nPrint Assumptions BU.Properties.%s.%s.\n" % (tmod, th, tmod, th))
+                    ths += tths
+                    br.ties[tname] = tths
             cmd2 = "timeout 900 coqc -Q . BU Properties/Assum_%s.v" % pid
             rc2, out2 = run(cmd2, cwd=COQ, timeout=1000)
             br.prop_ok = (rc2 == 0)
@@ -391,10 +429,12 @@ def check(modname, argv):
     os.makedirs("replays", exist_ok=True)
     os.makedirs("evidence", exist_ok=True)
 
-    br = build(pid)
+    br = build(pid, ties=getattr(mod, "TIES", ()))
     problems = []  # broken obligations (strings)
     if br.tables == "FAILED":
         problems.append("table generator failed closed: " + br.tables_log[-300:])
+    if not br.src_ok:
+        problems.append("source translator crashed: " + br.src_log[-300:])
     if br.gate:
         problems.append("forbidden construct in development: " + "; ".join(br.gate[:5]))
     cone_failed = [f for f in br.failed_files if f in br.cone]
@@ -414,6 +454,20 @@ def check(modname, argv):
                  x not in getattr(mod, "SECTION_VARS", [])]
         if extra:
             problems.append("theorem %s depends on non-whitelisted assumptions: %s" % (th, extra))
+
+    for t, st in br.ties.items():
+        if st == "BROKEN" or st == "missing":
+            if not any("Tie_%s.v" % t in p_ for p_ in problems):
+                problems.append("source tie Properties/Tie_%s.v does not check" % t)
+        elif isinstance(st, list):
+            for th in st:
+                a = br.assumptions.get(th)
+                if a is None:
+                    problems.append("tie theorem %s missing from the Print Assumptions output" % th)
+                    continue
+                axioms[th] = a
+                if a:
+                    problems.append("tie theorem %s depends on assumptions: %s" % (th, a))
 
     # thorough tier: independent re-check of the compiled cone with coqchk, and its axiom list
     coqchk = None
@@ -456,7 +510,10 @@ def check(modname, argv):
         # the anchored source differs from the tree the model was written against: explore more on this run
         import fingerprints
         src_changed = fingerprints.changed(pid, REPO)
-        if src_changed and not search and tier == "quick":
+        # a function the translator could not read falls back to the model in Gen/Src.v (its tie theorem is then
+        # vacuous): that function is tied by the correspondence only, so explore more on this run
+        tie_lost = [t for t, st in br.ties.items() if isinstance(st, str) and st.startswith("unavailable")]
+        if (src_changed or tie_lost) and not search and tier == "quick":
             for extra in (1, 2):
                 descs += list(mod.cases(tier, random.Random(seed * 1000003 + extra)))
     corpus_n = 0 if args.replay else ncorpus
@@ -553,6 +610,10 @@ def check(modname, argv):
             "coqchk": coqchk,
             "anchored_code_executed": anch,
             "anchored_files_changed_since_baseline": src_changed,
+            "source_tie": ({"functions": {t: (("proved: " + ", ".join(st)) if isinstance(st, list) else st) for t, st in br.ties.items()},
+                            "translator_notes": br.src_untranslated,
+                            "note": "functions translated from the current source by harness/gen_src.py on this run (coq/Gen/Src.v) and proved equal to the model (coq/Proofs/Tie_*.v, statements in coq/Properties/Tie_*.v)"}
+                           if br.ties else None),
             "model_vs_impl_disagreements_in_domain": len(viol),
             "out_of_domain_differences_logged": len(infos),
             "harness_errors": len(harness_errors),
@@ -611,6 +672,7 @@ def trusted_base(mod, axioms):
         "Coq 8.16.1 kernel (coqc, full .vo builds); vm_compute used in reflective table lemmas; no native_compute",
         "axioms per theorem (Print Assumptions): " + json.dumps({k: (v or "closed") for k, v in axioms.items()}),
         "table generator harness/gen_tables.py (runtime values of the library -> coq/Gen/Tables.v)",
+        "source translator harness/gen_src.py (Python AST of ten small functions -> coq/Gen/Src.v) and the Python semantics it assumes, coq/Lib/PySem.v",
         "extraction: ExtrOcamlBasic, ExtrOcamlZBigInt, ExtrOcamlNatBigInt, ExtrOcamlString (standard-library directives) plus three of our own: Extract Constant Z.land/Z.lor/Z.lxor => Zx.logand/logor/logxor (ocaml/zx.ml, zarith bit operations on non-negative and negative Z); zarith 1.12; ocaml/driver.ml",
         "correspondence harness (harness/engine.py, generators and canonicalisation in harness/props), CPython 3.12",
         "hand-written model coq/Model/*.v tied to the code only by the correspondence run of this check",
